@@ -228,6 +228,9 @@ def run_histories(ctx: Ctx, max_len: int = 2) -> None:
     ctx.rule("T6x.regrid", "grid_(refined grid) on FFD / SVFFD re-expresses the coefficients: the spline evaluated on the new grid agrees with the "
                            "old spline at the coincident samples (function preserved); dense models keep the world displacement (vectors re-expressed "
                            "in the new grid's convention)")
+    focus = getattr(ctx, "focus", None)
+    if focus and not any(r.startswith(focus) for r in ("T6x.call-fresh", "T6x.replace-fresh")):
+        return  # (mutation self-test of another rule)
     kinds = ["parameter", "buffer", "tensor", "callable"]
     # plus the dense models with resize=False (the buffered field is then the parameter tensor itself, not a resized copy)
     configs = NONRIGID + [(NONRIGID[0][0], NONRIGID[0][1], {"resize": False}), (NONRIGID[1][0], NONRIGID[1][1], {"steps": 1, "resize": False})]
@@ -267,10 +270,16 @@ def _history_worker(i: int):
     try:
         env = TEnv(ctx, 2)
         names = list(_ops(env, kind, cls))
-        seqs = [s for n in range(1, max_len + 1) for s in itertools.product(names, repeat=n)]
+        # all histories up to length 2 over every operation; longer ones (thorough tier) over the in-place core operations only
+        core = [n for n in names if n in ("update", "call", "disp", "clear_buffers", "condition_", "grid_", "data_", "inplace-edit", "reset_parameters")]
+        seqs = [s for n in range(1, min(max_len, 2) + 1) for s in itertools.product(names, repeat=n)]
+        seqs += [s for n in range(3, max_len + 1) for s in itertools.product(core, repeat=n)]
         bad_call: List[str] = []
         bad_rep: List[str] = []
+        first_only = getattr(ctx, "stop_when", None) is not None  # mutation self-test: one reported history is enough
         for seq in seqs:
+            if first_only and (bad_call or bad_rep):
+                break
             env = TEnv(ctx, 2)
             it = env.it
             ops = _ops(env, kind, cls)
